@@ -5,7 +5,24 @@ K1_C14 = ['Model.agent', 'Model.agent_ids', 'Model.agent_count', 'Model.agent_co
           'Model.delete_agent', 'Model.configure_agents', 'Model.reset_cache', 'Model.reset',
           'Model.register_agent_factory']
 
+K1_C13 = ['DataCollector.collect_agent_statistics', 'DataCollector.record_event', 'DataCollector.statistics',
+          'DataCollector.reset']
+
 PROPS = {
+    'C13': dict(
+        mods=['contracts.c13_stats'], k1=K1_C13, level='proof',
+        harness='verif/native/c13_harness.py', harness_budget=(15, 60),
+        explanation='functional contract on DataCollector.collect_agent_statistics (nested loop invariants over the agent '
+                    'list and the property dict): for the recorded time, domain of types/states, count, total, max, min and '
+                    'mean equal recurrence-defined aggregates over exactly the agents of each (type,state)',
+        assumptions=[
+            'numeric values are mathematical reals (machine arithmetic treated as mathematical); the mean is total/count with an uninterpreted division symbol (congruence only)',
+            'precondition is_valid: every agent property is a {"type","value"} record; agents of one (type,state) group carry the same numeric property names (otherwise the recorded mean depends on agent order); no property is named "count"',
+            'Python ints are mathematical integers (true); dict iteration = insertion order; single-threaded execution',
+        ],
+        not_decided=[
+            'not decided: the dataframe / dict / json assembly in HybridRunner.run_scenario and get_df_for_agent (pandas joins, fillna) -- only reached by the native replay harness, never counted as proved',
+        ]),
     'C14': dict(
         mods=['contracts.c14_registry'], k1=K1_C14, level='proof',
         harness='verif/native/c14_harness.py', harness_budget=(20, 90),
